@@ -247,6 +247,9 @@ func (l *Lab) localFiles(dir, pkgName string) error {
 	return work.WriteFile(filepath.Join(dir, "local_funcs.go"), []byte(instantiate(string(ft), pkgName, ".")))
 }
 
+// LocalFiles writes the fixture symbols of the "current package" into dir.
+func (l *Lab) LocalFiles(dir, pkgName string) error { return l.localFiles(dir, pkgName) }
+
 func (l *Lab) unitDir(u *Unit) string {
 	if u.Stub {
 		return filepath.Join(l.W.Mod, "stub", u.ID)
